@@ -3,10 +3,11 @@
   commands defines `handle : String → Model.Req → Option String` and is listed here.
 -/
 import Model.Driver
+import Model.Lines
 
 namespace Model
 
-def handlers : List (String → Req → Option String) := [handleCore]
+def handlers : List (String → Req → Option String) := [handleCore, Lines.handle]
 
 def handle (line : String) : String :=
   let (cmd, r) := parseReq line
